@@ -81,13 +81,24 @@ func (s *BadgerStore) VerifC11CustodianCacheSize() int {
 	return n
 }
 
-// VerifC11DropAll empties both databases and the custodian cache so one store can
-// serve many independent histories.
+// VerifC11DropAll deletes every key of the snapshots database and empties the
+// custodian cache so one store can serve many independent small histories.
 func (s *BadgerStore) VerifC11DropAll() error {
 	s.custodians.Clear()
-	err := s.snapshotsDB.DropAll()
-	if err != nil {
-		return err
-	}
-	return s.cacheDB.DropAll()
+	return s.snapshotsDB.Update(func(txn *badger.Txn) error {
+		opts := badger.DefaultIteratorOptions
+		opts.PrefetchValues = false
+		it := txn.NewIterator(opts)
+		var keys [][]byte
+		for it.Rewind(); it.Valid(); it.Next() {
+			keys = append(keys, it.Item().KeyCopy(nil))
+		}
+		it.Close()
+		for _, k := range keys {
+			if err := txn.Delete(k); err != nil {
+				return err
+			}
+		}
+		return nil
+	})
 }
